@@ -254,6 +254,27 @@ pub fn run_c16(seed: u64, n: usize, out: &mut Out) {
                     continue;
                 }
             };
+            // the answer depends on the page's host alone: other spellings of a URL on the same host (query or
+            // fragment directly after the host, `@` outside the authority, user information, a port, upper case)
+            // get the same cosmetic resources
+            if ghide_rules.is_empty() && host.is_ascii() {
+                for alt in [format!("https://{}?contact=admin@c.org", host), format!("https://{}#@x", host), format!("https://{}:8080/p?x=@y", host),
+                            format!("https://user@{}/p", host), format!("HTTPS://{}/p", host.to_uppercase()), format!("https://{}/q/r?s#t", host)] {
+                    if let Ok(Some(ra)) = guarded(std::panic::AssertUnwindSafe(|| Some(e.url_cosmetic_resources(&alt)))) {
+                        if ra.hide_selectors != res.hide_selectors || ra.procedural_actions != res.procedural_actions || ra.exceptions != res.exceptions || {
+                            // (scriptlets are emitted in hash-map order: compare the lines as a set)
+                            let mut a: Vec<&str> = ra.injected_script.lines().collect();
+                            let mut b: Vec<&str> = res.injected_script.lines().collect();
+                            a.sort();
+                            b.sort();
+                            a != b
+                        } {
+                            out.fail("cosmetic-answer-depends-on-more-than-the-host", None, json!({"rules": lines, "url": url, "other_spelling": alt}));
+                        }
+                        out.bump("url_spelling_probes");
+                    }
+                }
+            }
             // generichide, rule by rule: some live $generichide exception matches the page as a document
             // request initiated by the page itself
             if let Ok(doc) = adblock::request::Request::new(&url, &url, "document") {
@@ -330,8 +351,14 @@ pub fn run_c17(seed: u64, n: usize, out: &mut Out) {
     for _ in 0..n / 2 {
         let nr = 1 + r.below(10);
         let mut lines: Vec<String> = vec![];
+        // plain CSS selectors (non-ASCII identifiers included) of which it is known that the rule is a cosmetic one
+        let mut known_plain: Vec<String> = vec![];
         for _ in 0..nr {
-            let s = if r.pct(15) { r.pick(&["#\u{43d}\u{435}\u{434}\u{435}\u{43b}\u{44f}", ".\u{440}\u{435}\u{43a}\u{43b}\u{430}\u{43c}\u{430}", ".ad-\u{431}\u{430}\u{43d}\u{43d}\u{435}\u{440}", "#pub-publicit\u{e9} > div", ".promo\\:st\u{f8}rre", ".caf\\\u{e9}-banner", ".caf\\\u{e9}-banner > .inner", "#\\\u{5e83}\u{544a}-top", ".x\\\u{1f600}y"]).to_string() } else { sel(&mut r) };
+            let from_fixed_list = r.pct(15);
+            let s = if from_fixed_list { r.pick(&["#\u{43d}\u{435}\u{434}\u{435}\u{43b}\u{44f}", ".\u{440}\u{435}\u{43a}\u{43b}\u{430}\u{43c}\u{430}", ".ad-\u{431}\u{430}\u{43d}\u{43d}\u{435}\u{440}", "#pub-publicit\u{e9} > div", ".promo\\:st\u{f8}rre", ".caf\\\u{e9}-banner", ".caf\\\u{e9}-banner > .inner", "#\\\u{5e83}\u{544a}-top", ".x\\\u{1f600}y", ".\u{65e5}\u{672c}\u{8a9e}\u{5e83}\u{544a}", "#\u{5e83}\u{544a} > div", ".a\u{e9}-box .inner", ".\u{5e83}", "#a\u{5e83}"]).to_string() } else { sel(&mut r) };
+            if from_fixed_list {
+                known_plain.push(s.clone());
+            }
             // (white space between the separator and the selector is not part of the selector)
             let gap = if r.pct(12) { *r.pick(&[&" ", &"\t", &"  "]) } else { "" };
             lines.push(match r.below(8) {
@@ -371,7 +398,13 @@ pub fn run_c17(seed: u64, n: usize, out: &mut Out) {
             }
             let s = match parse_cosm(l).and_then(|f| f.plain_css_selector().map(|x| x.to_string())) {
                 Some(s) => s,
-                None => continue,
+                None => {
+                    // a line of the form `[~a.com]##<plain selector>` is a cosmetic rule, whatever characters the selector has
+                    if let Some(k) = known_plain.iter().find(|k| l.ends_with(k.as_str())) {
+                        out.fail("cosmetic-rule-not-loaded-as-one", None, json!({"line": l, "selector": k}));
+                    }
+                    continue;
+                }
             };
             let key = adblock::cosmetic_filter_cache::verif_key_from_selector(&s);
             let via_site = site.hide_selectors.contains(&s);
